@@ -1,9 +1,13 @@
 (* Proofs/FermatProofs.v — lemmas about Model/Fermat.v (C01). Axiom-free.
 
    Part 1: table calculus (tables given by entry functions).
-   Part 2: function-level description of what solve_pure computes (optT/optI) and
-           the proof that the list-level solver produces exactly these tables.
-   Part 3: optimality and realisation (Bellman step uses only monotonicity of add). *)
+   Part 2: the solver with an ARBITRARY argmin choice `sel`, at function level (optT/optI),
+           optimality and realisation (the Bellman step uses only monotonicity of add).
+   Part 3: the model's kernel (cell1 = first strict minimiser) is such a choice, and the
+           list-level solver solve_pure produces exactly the tables of optT/optI.
+   Part 4: the caches (solver_grouping).   Part 5: reversal.
+   Part 6: Rays.reverse and the bracket of the continuous problem.
+   Part 7: the brute-force specification function `brute` is the minimum over all tuples. *)
 From Coq Require Import Arith List Bool Lia.
 From Arim Require Import Model.MinPlus Model.Fermat Proofs.MinPlusProofs.
 Import ListNotations.
@@ -68,7 +72,218 @@ Lemma nth_tab {A} n m (f : nat -> nat -> A) i j d :
   i < n -> j < m -> nth j (nth i (tab n m f) []) d = f i j.
 Proof. intros Hi Hj. unfold tab. rewrite nth_map_seq by exact Hi. now apply nth_map_seq. Qed.
 
-(* ---------- Part 2: what solve_pure computes ------------------------------ *)
+(* ---------- Part 2: the solver with an ARBITRARY argmin choice, at function level ------ *)
+(* `sel m h` chooses among the candidates h 0 .. h (m-1): it returns (value, index); the only
+   thing assumed is that for m >= 1 the index is in range, the value is the candidate at that
+   index, and it is <= every candidate.  The code's kernel (first strict minimiser) is one such
+   choice (cell1 below); so is `<=` (last minimiser) or any other tie-breaking. *)
+Section FermatGeneric.
+  Variables T V PS : Type.
+  Variable leb : T -> T -> bool.
+  Variable add : T -> T -> T.
+  Variable size : PS -> nat.
+  Variable wf : PS -> V -> PS -> nat -> nat -> T.
+  Variable sel : nat -> (nat -> T) -> T * nat.
+  Hypothesis leb_refl : forall a, leb a a = true.
+  Hypothesis leb_trans : forall a b c, leb a b = true -> leb b c = true -> leb a c = true.
+  Hypothesis add_mono : forall a b c, leb a b = true -> leb (add a c) (add b c) = true.
+  Hypothesis sel_spec : forall m h, 1 <= m ->
+    snd (sel m h) < m
+    /\ fst (sel m h) = h (snd (sel m h))
+    /\ (forall k, k < m -> leb (fst (sel m h)) (h k) = true).
+
+  Notation fpath := (@fpath V PS).
+  Notation cost := (cost add size wf).
+
+  (* time table, Bellman index and interior-index layers of the path (Leg h v P), as functions *)
+  Fixpoint optT (h : fpath) (v : V) (P : PS) (i j : nat) : T :=
+    match h with
+    | Start P0 => wf P0 v P i j
+    | Leg h' v' Pm => fst (sel (size Pm) (fun k => add (optT h' v' Pm i k) (wf Pm v P k j)))
+    end.
+
+  Definition kidx (h : fpath) (v : V) (P : PS) (i j : nat) : nat :=
+    match h with
+    | Start _ => 0
+    | Leg h' v' Pm => snd (sel (size Pm) (fun k => add (optT h' v' Pm i k) (wf Pm v P k j)))
+    end.
+
+  Fixpoint optI (h : fpath) (v : V) (P : PS) : list (nat -> nat -> nat) :=
+    match h with
+    | Start _ => []
+    | Leg h' v' Pm =>
+        map (fun fl i j => fl i (kidx (Leg h' v' Pm) v P i j)) (optI h' v' Pm) ++ [kidx (Leg h' v' Pm) v P]
+    end.
+
+  Lemma optI_Leg h' v' Pm v P :
+    optI (Leg h' v' Pm) v P
+    = map (fun fl i j => fl i (kidx (Leg h' v' Pm) v P i j)) (optI h' v' Pm) ++ [kidx (Leg h' v' Pm) v P].
+  Proof. reflexivity. Qed.
+
+  (* every interior point set is non-empty *)
+  Fixpoint interior_ok (p : fpath) : Prop :=
+    match p with
+    | Start _ => True
+    | Leg h _ _ => match h with Start _ => True | Leg _ _ Pm => 1 <= size Pm /\ interior_ok h end
+    end.
+
+  Lemma kidx_lt h' v' Pm v P i j : 1 <= size Pm -> kidx (Leg h' v' Pm) v P i j < size Pm.
+  Proof. intros H. simpl. now apply sel_spec. Qed.
+
+  (* ---------- Part 3: optimality and realisation ------------------------- *)
+  (* the ray reported for (i, j), LAST index first *)
+  Fixpoint rayf (h : fpath) (v : V) (P : PS) (i j : nat) : list nat :=
+    match h with
+    | Start _ => [j; i]
+    | Leg h' v' Pm => j :: rayf h' v' Pm i (kidx (Leg h' v' Pm) v P i j)
+    end.
+
+  Lemma rayf_shape h v P i j : exists k more, rayf h v P i j = j :: k :: more.
+  Proof.
+    destruct h as [P0|h' v' Pm]; simpl; [eauto|].
+    destruct h' as [P0|h'' v'' Pm']; simpl; eauto.
+  Qed.
+
+  Lemma cost_hd_lt h v P j rest c : cost (Leg h v P) (j :: rest) = Some c -> j < size P.
+  Proof.
+    simpl. destruct rest as [|k more]; [discriminate|].
+    destruct (j <? size P) eqn:E; [|discriminate]. intros _. now apply Nat.ltb_lt.
+  Qed.
+
+  Lemma cost_step h' v' Pm v P j k more :
+    cost (Leg (Leg h' v' Pm) v P) (j :: k :: more)
+    = if j <? size P
+      then match cost (Leg h' v' Pm) (k :: more) with
+           | Some c => Some (add c (wf Pm v P k j))
+           | None => None
+           end
+      else None.
+  Proof. reflexivity. Qed.
+
+  Lemma realised_f h : forall v P i j, interior_ok (Leg h v P) ->
+    i < size (startp h) -> j < size P ->
+    cost (Leg h v P) (rayf h v P i j) = Some (optT h v P i j).
+  Proof.
+    induction h as [P0|h' IH v' Pm]; intros v P i j Hok Hi Hj.
+    - simpl in *. apply Nat.ltb_lt in Hi, Hj. now rewrite Hi, Hj.
+    - destruct Hok as [Hm Hok].
+      set (kk := kidx (Leg h' v' Pm) v P i j).
+      assert (Hkk : kk < size Pm) by (apply kidx_lt; exact Hm).
+      specialize (IH v' Pm i kk Hok Hi Hkk).
+      cbn [rayf]. fold kk.
+      destruct (rayf_shape h' v' Pm i kk) as (k & more & Hs). rewrite Hs in *.
+      rewrite cost_step. apply Nat.ltb_lt in Hj. rewrite Hj.
+      rewrite IH. f_equal. cbn [optT].
+      destruct (sel_spec (size Pm) (fun k0 => add (optT h' v' Pm i k0) (wf Pm v P k0 j)) Hm) as (_ & Hat & _).
+      rewrite Hat. reflexivity.
+  Qed.
+
+  Lemma optimal_f h : forall v P ridx c, interior_ok (Leg h v P) ->
+    cost (Leg h v P) ridx = Some c ->
+    leb (optT h v P (last ridx 0) (hd 0 ridx)) c = true.
+  Proof.
+    induction h as [P0|h' IH v' Pm]; intros v P ridx c Hok Hc.
+    - simpl in Hc. destruct ridx as [|j [|k more]]; try discriminate.
+      destruct (j <? size P); [|discriminate]. destruct more; [|discriminate].
+      destruct (k <? size P0); [|discriminate]. injection Hc as <-. simpl. apply leb_refl.
+    - destruct Hok as [Hm Hok].
+      destruct ridx as [|j [|k more]]; try discriminate.
+      rewrite cost_step in Hc. destruct (j <? size P); [|discriminate].
+      destruct (cost (Leg h' v' Pm) (k :: more)) as [c'|] eqn:Ec; [|discriminate].
+      injection Hc as <-.
+      pose proof (cost_hd_lt _ _ _ _ _ _ Ec) as Hk.
+      specialize (IH v' Pm (k :: more) c' Hok Ec). cbn [hd] in IH.
+      change (last (j :: k :: more) 0) with (last (k :: more) 0). cbn [hd optT].
+      set (i := last (k :: more) 0) in *.
+      destruct (sel_spec (size Pm) (fun k0 => add (optT h' v' Pm i k0) (wf Pm v P k0 j)) Hm) as (_ & _ & Hle).
+      eapply leb_trans; [apply (Hle k Hk)|]. apply add_mono. exact IH.
+  Qed.
+
+  Lemma cost_last_lt h : forall v P ridx c,
+    cost (Leg h v P) ridx = Some c -> last ridx 0 < size (startp h) /\ length ridx = S (S (nlegs h)).
+  Proof.
+    induction h as [P0|h' IH v' Pm]; intros v P ridx c Hc.
+    - simpl in Hc. destruct ridx as [|j [|k more]]; try discriminate.
+      destruct (j <? size P); [|discriminate]. destruct more; [|discriminate].
+      destruct (k <? size P0) eqn:E; [|discriminate]. simpl. apply Nat.ltb_lt in E. auto.
+    - destruct ridx as [|j [|k more]]; try discriminate.
+      rewrite cost_step in Hc. destruct (j <? size P); [|discriminate].
+      destruct (cost (Leg h' v' Pm) (k :: more)) as [c'|] eqn:Ec; [|discriminate].
+      destruct (IH v' Pm (k :: more) c' Ec) as [H1 H2].
+      change (last (j :: k :: more) 0) with (last (k :: more) 0). split; [exact H1|].
+      cbn [length nlegs startp] in *. lia.
+  Qed.
+
+  Lemma rayf_optI h : forall v P i j,
+    rayf h v P i j = j :: rev (map (fun fl => fl i j) (optI h v P)) ++ [i].
+  Proof.
+    induction h as [P0|h' IH v' Pm]; intros v P i j; [reflexivity|].
+    cbn [rayf optI]. rewrite IH. f_equal.
+    rewrite map_app, map_map. cbn [map]. rewrite rev_unit. reflexivity.
+  Qed.
+
+  Lemma ray_of_tab h v P i j : i < size (startp h) -> j < size P ->
+    rev (ray_of (mkRays (tab (size (startp h)) (size P) (optT h v P))
+                        (map (tab (size (startp h)) (size P)) (optI h v P))) i j)
+    = rayf h v P i j.
+  Proof.
+    intros Hi Hj. unfold ray_of. cbn [r_int]. rewrite map_map.
+    rewrite (map_ext _ (fun fl => fl i j)) by (intros fl; now apply nth_tab).
+    rewrite rayf_optI. cbn [rev]. rewrite rev_unit. reflexivity.
+  Qed.
+
+
+  (* the answer of the solver that uses the choice `sel`: tables of optT / optI *)
+  Definition solve_sel (h : fpath) (v : V) (P : PS) : rays T :=
+    mkRays (tab (size (startp h)) (size P) (optT h v P))
+           (map (tab (size (startp h)) (size P)) (optI h v P)).
+
+  Theorem sel_optimal h v P ridx c : interior_ok (Leg h v P) ->
+    cost (Leg h v P) ridx = Some c ->
+    exists t, get2 (r_times (solve_sel h v P)) (last ridx 0) (hd 0 ridx) = Some t /\ leb t c = true.
+  Proof.
+    intros Hok Hc. cbn [solve_sel r_times].
+    destruct (cost_last_lt h v P ridx c Hc) as [Hi _].
+    assert (Hj : hd 0 ridx < size P).
+    { destruct ridx as [|j rest]; [discriminate|]. simpl. eapply cost_hd_lt; eauto. }
+    exists (optT h v P (last ridx 0) (hd 0 ridx)). split.
+    - apply get2_tab; assumption.
+    - now apply optimal_f.
+  Qed.
+
+  Theorem sel_realised h v P i j : interior_ok (Leg h v P) ->
+    i < size (startp h) -> j < size P ->
+    exists t, get2 (r_times (solve_sel h v P)) i j = Some t
+              /\ cost (Leg h v P) (rev (ray_of (solve_sel h v P) i j)) = Some t
+              /\ hd 0 (ray_of (solve_sel h v P) i j) = i /\ last (ray_of (solve_sel h v P) i j) 0 = j
+              /\ length (ray_of (solve_sel h v P) i j) = S (S (nlegs h)).
+  Proof.
+    intros Hok Hi Hj. unfold solve_sel. cbn [r_times].
+    exists (optT h v P i j). split; [now apply get2_tab|]. split.
+    - rewrite ray_of_tab by assumption. now apply realised_f.
+    - unfold ray_of. cbn [hd]. split; [reflexivity|]. split.
+      + change (i :: ?l ++ [j]) with ((i :: l) ++ [j]). apply last_last.
+      + pose proof (cost_last_lt h v P (rayf h v P i j) _ (realised_f h v P i j Hok Hi Hj)) as [_ Hl].
+        rewrite <- (ray_of_tab h v P i j Hi Hj), rev_length in Hl. unfold ray_of in Hl.
+        cbn [r_int] in Hl. cbn [r_int]. exact Hl.
+  Qed.
+
+  Theorem sel_shape h v P :
+    length (r_times (solve_sel h v P)) = size (startp h)
+    /\ (forall row, In row (r_times (solve_sel h v P)) -> length row = size P)
+    /\ length (r_int (solve_sel h v P)) = nlegs h.
+  Proof.
+    unfold solve_sel. cbn [r_times r_int]. repeat split.
+    - apply tab_length.
+    - intros row. apply tab_row_length.
+    - rewrite map_length. revert v P. induction h as [P0|h' IH v' Pm]; intros v P; simpl; auto.
+      rewrite app_length, map_length, IH. simpl. lia.
+  Qed.
+End FermatGeneric.
+
+Arguments interior_ok {V PS}.
+
+(* ---------- Part 3: the model's kernel is one such choice; what solve_pure computes ------ *)
 Section FermatProofs.
   Variables T D V PS : Type.
   Variable leb ltb : T -> T -> bool.
@@ -129,35 +344,20 @@ Section FermatProofs.
     - intros k Hk. apply (Hlt k (h k) Hk). rewrite nth_error_map', nth_error_seq by lia. reflexivity.
   Qed.
 
-  (* time table, Bellman index and interior-index layers of the path (Leg h v P), as functions *)
-  Fixpoint optT (h : fpath) (v : V) (P : PS) (i j : nat) : T :=
-    match h with
-    | Start P0 => wf P0 v P i j
-    | Leg h' v' Pm => fst (cell1 (size Pm) (fun k => add (optT h' v' Pm i k) (wf Pm v P k j)))
-    end.
 
-  Definition kidx (h : fpath) (v : V) (P : PS) (i j : nat) : nat :=
-    match h with
-    | Start _ => 0
-    | Leg h' v' Pm => snd (cell1 (size Pm) (fun k => add (optT h' v' Pm i k) (wf Pm v P k j)))
-    end.
+  Lemma cell1_sel m h : 1 <= m ->
+    snd (cell1 m h) < m
+    /\ fst (cell1 m h) = h (snd (cell1 m h))
+    /\ (forall k, k < m -> leb (fst (cell1 m h)) (h k) = true).
+  Proof. intros Hm. destruct (cell1_spec m h Hm) as (H1 & H2 & H3 & _). auto. Qed.
 
-  Fixpoint optI (h : fpath) (v : V) (P : PS) : list (nat -> nat -> nat) :=
-    match h with
-    | Start _ => []
-    | Leg h' v' Pm =>
-        map (fun fl i j => fl i (kidx (Leg h' v' Pm) v P i j)) (optI h' v' Pm) ++ [kidx (Leg h' v' Pm) v P]
-    end.
+  Notation optT := (optT T V PS add size wf cell1).
+  Notation optI := (optI T V PS add size wf cell1).
+  Notation kidx := (kidx T V PS add size wf cell1).
+  Notation interior_ok := (interior_ok size).
 
-  (* every interior point set is non-empty *)
-  Fixpoint interior_ok (p : fpath) : Prop :=
-    match p with
-    | Start _ => True
-    | Leg h _ _ => match h with Start _ => True | Leg _ _ Pm => 1 <= size Pm /\ interior_ok h end
-    end.
-
-  Lemma kidx_lt h' v' Pm v P i j : 1 <= size Pm -> kidx (Leg h' v' Pm) v P i j < size Pm.
-  Proof. intros H. simpl. now apply cell1_spec. Qed.
+  Lemma kidx_lt_m h' v' Pm v P i j : 1 <= size Pm -> kidx (Leg h' v' Pm) v P i j < size Pm.
+  Proof. intros H. eapply kidx_lt; eauto using cell1_sel. Qed.
 
   Theorem solve_pure_tab h : forall v P, interior_ok (Leg h v P) ->
     solve_pure (Leg h v P)
@@ -184,112 +384,15 @@ Section FermatProofs.
                  (fun k => add (optT h' v' Pm i k) (wf Pm v P k j))))).
       2:{ intros i j _ _. now apply cellf_cell1. }
       rewrite all_some2_tab. cbn [fst snd]. rewrite !tab_map. f_equal. f_equal.
-      unfold expand_rays. cbn [startp optI]. rewrite map_app, !map_map. f_equal.
+      unfold expand_rays. cbn [startp]. rewrite (optI_Leg T V PS add size wf cell1). rewrite map_app, !map_map. f_equal.
       apply map_ext. intros fl. apply expand_layer_tab.
-      intros i j _ _. apply (kidx_lt h' v' Pm v P i j Hm).
+      intros i j _ _. apply (kidx_lt_m h' v' Pm v P i j Hm).
   Qed.
 
-  (* ---------- Part 3: optimality and realisation ------------------------- *)
-  (* the ray reported for (i, j), LAST index first *)
-  Fixpoint rayf (h : fpath) (v : V) (P : PS) (i j : nat) : list nat :=
-    match h with
-    | Start _ => [j; i]
-    | Leg h' v' Pm => j :: rayf h' v' Pm i (kidx (Leg h' v' Pm) v P i j)
-    end.
 
-  Lemma rayf_shape h v P i j : exists k more, rayf h v P i j = j :: k :: more.
-  Proof.
-    destruct h as [P0|h' v' Pm]; simpl; [eauto|].
-    destruct h' as [P0|h'' v'' Pm']; simpl; eauto.
-  Qed.
-
-  Lemma cost_hd_lt h v P j rest c : cost (Leg h v P) (j :: rest) = Some c -> j < size P.
-  Proof.
-    simpl. destruct rest as [|k more]; [discriminate|].
-    destruct (j <? size P) eqn:E; [|discriminate]. intros _. now apply Nat.ltb_lt.
-  Qed.
-
-  Lemma cost_step h' v' Pm v P j k more :
-    cost (Leg (Leg h' v' Pm) v P) (j :: k :: more)
-    = if j <? size P
-      then match cost (Leg h' v' Pm) (k :: more) with
-           | Some c => Some (add c (wf Pm v P k j))
-           | None => None
-           end
-      else None.
-  Proof. reflexivity. Qed.
-
-  Lemma realised_f h : forall v P i j, interior_ok (Leg h v P) ->
-    i < size (startp h) -> j < size P ->
-    cost (Leg h v P) (rayf h v P i j) = Some (optT h v P i j).
-  Proof.
-    induction h as [P0|h' IH v' Pm]; intros v P i j Hok Hi Hj.
-    - simpl in *. apply Nat.ltb_lt in Hi, Hj. now rewrite Hi, Hj.
-    - destruct Hok as [Hm Hok].
-      set (kk := kidx (Leg h' v' Pm) v P i j).
-      assert (Hkk : kk < size Pm) by (apply kidx_lt; exact Hm).
-      specialize (IH v' Pm i kk Hok Hi Hkk).
-      cbn [rayf]. fold kk.
-      destruct (rayf_shape h' v' Pm i kk) as (k & more & Hs). rewrite Hs in *.
-      rewrite cost_step. apply Nat.ltb_lt in Hj. rewrite Hj.
-      rewrite IH. f_equal. cbn [optT].
-      destruct (cell1_spec (size Pm) (fun k0 => add (optT h' v' Pm i k0) (wf Pm v P k0 j)) Hm) as (_ & Hat & _).
-      rewrite Hat. reflexivity.
-  Qed.
-
-  Lemma optimal_f h : forall v P ridx c, interior_ok (Leg h v P) ->
-    cost (Leg h v P) ridx = Some c ->
-    leb (optT h v P (last ridx 0) (hd 0 ridx)) c = true.
-  Proof.
-    induction h as [P0|h' IH v' Pm]; intros v P ridx c Hok Hc.
-    - simpl in Hc. destruct ridx as [|j [|k more]]; try discriminate.
-      destruct (j <? size P); [|discriminate]. destruct more; [|discriminate].
-      destruct (k <? size P0); [|discriminate]. injection Hc as <-. simpl. apply leb_refl.
-    - destruct Hok as [Hm Hok].
-      destruct ridx as [|j [|k more]]; try discriminate.
-      rewrite cost_step in Hc. destruct (j <? size P); [|discriminate].
-      destruct (cost (Leg h' v' Pm) (k :: more)) as [c'|] eqn:Ec; [|discriminate].
-      injection Hc as <-.
-      pose proof (cost_hd_lt _ _ _ _ _ _ Ec) as Hk.
-      specialize (IH v' Pm (k :: more) c' Hok Ec). cbn [hd] in IH.
-      change (last (j :: k :: more) 0) with (last (k :: more) 0). cbn [hd optT].
-      set (i := last (k :: more) 0) in *.
-      destruct (cell1_spec (size Pm) (fun k0 => add (optT h' v' Pm i k0) (wf Pm v P k0 j)) Hm) as (_ & _ & Hle & _).
-      eapply leb_trans; [apply (Hle k Hk)|]. apply add_mono. exact IH.
-  Qed.
-
-  Lemma cost_last_lt h : forall v P ridx c,
-    cost (Leg h v P) ridx = Some c -> last ridx 0 < size (startp h) /\ length ridx = S (S (nlegs h)).
-  Proof.
-    induction h as [P0|h' IH v' Pm]; intros v P ridx c Hc.
-    - simpl in Hc. destruct ridx as [|j [|k more]]; try discriminate.
-      destruct (j <? size P); [|discriminate]. destruct more; [|discriminate].
-      destruct (k <? size P0) eqn:E; [|discriminate]. simpl. apply Nat.ltb_lt in E. auto.
-    - destruct ridx as [|j [|k more]]; try discriminate.
-      rewrite cost_step in Hc. destruct (j <? size P); [|discriminate].
-      destruct (cost (Leg h' v' Pm) (k :: more)) as [c'|] eqn:Ec; [|discriminate].
-      destruct (IH v' Pm (k :: more) c' Ec) as [H1 H2].
-      change (last (j :: k :: more) 0) with (last (k :: more) 0). split; [exact H1|].
-      cbn [length nlegs startp] in *. lia.
-  Qed.
-
-  Lemma rayf_optI h : forall v P i j,
-    rayf h v P i j = j :: rev (map (fun fl => fl i j) (optI h v P)) ++ [i].
-  Proof.
-    induction h as [P0|h' IH v' Pm]; intros v P i j; [reflexivity|].
-    cbn [rayf optI]. rewrite IH. f_equal.
-    rewrite map_app, map_map. cbn [map]. rewrite rev_unit. reflexivity.
-  Qed.
-
-  Lemma ray_of_tab h v P i j : i < size (startp h) -> j < size P ->
-    rev (ray_of (mkRays (tab (size (startp h)) (size P) (optT h v P))
-                        (map (tab (size (startp h)) (size P)) (optI h v P))) i j)
-    = rayf h v P i j.
-  Proof.
-    intros Hi Hj. unfold ray_of. cbn [r_int]. rewrite map_map.
-    rewrite (map_ext _ (fun fl => fl i j)) by (intros fl; now apply nth_tab).
-    rewrite rayf_optI. cbn [rev]. rewrite rev_unit. reflexivity.
-  Qed.
+  Lemma solve_pure_sel h v P : interior_ok (Leg h v P) ->
+    solve_pure (Leg h v P) = Some (solve_sel T V PS add size wf cell1 h v P).
+  Proof. exact (solve_pure_tab h v P). Qed.
 
   (* ---- statements about the list-level solver ---------------------------- *)
   Theorem solve_pure_defined p : 1 <= nlegs p -> interior_ok p -> exists r, solve_pure p = Some r.
@@ -303,12 +406,8 @@ Section FermatProofs.
     /\ length (r_int r) = nlegs p - 1.
   Proof.
     destruct p as [P0|h v P]; [discriminate|]. intros Hok E.
-    rewrite (solve_pure_tab h v P Hok) in E. injection E as <-. cbn [r_times r_int startp endp nlegs].
-    repeat split.
-    - apply tab_length.
-    - intros row. apply tab_row_length.
-    - rewrite map_length. clear Hok. revert v P. induction h as [P0|h' IH v' Pm]; intros v P; simpl; auto.
-      rewrite app_length, map_length, IH. simpl. destruct h'; simpl; lia.
+    rewrite (solve_pure_sel h v P Hok) in E. injection E as <-. cbn [startp endp nlegs].
+    replace (S (nlegs h) - 1) with (nlegs h) by lia. apply sel_shape.
   Qed.
 
   Theorem solve_optimal_lemma p r ridx c : interior_ok p -> solve_pure p = Some r ->
@@ -316,13 +415,8 @@ Section FermatProofs.
     exists t, get2 (r_times r) (last ridx 0) (hd 0 ridx) = Some t /\ leb t c = true.
   Proof.
     destruct p as [P0|h v P]; [discriminate|]. intros Hok E Hc.
-    rewrite (solve_pure_tab h v P Hok) in E. injection E as <-. cbn [r_times].
-    destruct (cost_last_lt h v P ridx c Hc) as [Hi _].
-    assert (Hj : hd 0 ridx < size P).
-    { destruct ridx as [|j rest]; [discriminate|]. simpl. eapply cost_hd_lt; eauto. }
-    exists (optT h v P (last ridx 0) (hd 0 ridx)). split.
-    - apply get2_tab; assumption.
-    - now apply optimal_f.
+    rewrite (solve_pure_sel h v P Hok) in E. injection E as <-.
+    eapply sel_optimal; eauto using cell1_sel.
   Qed.
 
   Theorem solve_realised_lemma p r i j : interior_ok p -> solve_pure p = Some r ->
@@ -333,14 +427,8 @@ Section FermatProofs.
               /\ length (ray_of r i j) = S (nlegs p).
   Proof.
     destruct p as [P0|h v P]; [discriminate|]. intros Hok E Hi Hj. cbn [startp endp] in *.
-    rewrite (solve_pure_tab h v P Hok) in E. injection E as <-. cbn [r_times].
-    exists (optT h v P i j). split; [now apply get2_tab|]. split.
-    - rewrite ray_of_tab by assumption. now apply realised_f.
-    - unfold ray_of. cbn [hd]. split; [reflexivity|]. split.
-      + change (i :: ?l ++ [j]) with ((i :: l) ++ [j]). apply last_last.
-      + pose proof (cost_last_lt h v P (rayf h v P i j) _ (realised_f h v P i j Hok Hi Hj)) as [_ Hl].
-        rewrite <- (ray_of_tab h v P i j Hi Hj), rev_length in Hl. cbn [nlegs]. unfold ray_of in Hl.
-        cbn [r_int] in Hl. cbn [r_int]. exact Hl.
+    rewrite (solve_pure_sel h v P Hok) in E. injection E as <-. cbn [nlegs].
+    eapply sel_realised; eauto using cell1_sel.
   Qed.
 End FermatProofs.
 
@@ -360,8 +448,6 @@ Proof.
   rewrite map_map. rewrite (map_as_seq _ (pts P) (origin N)). apply map_ext. intros i.
   rewrite map_map. rewrite (map_as_seq _ (pts Q) (origin N)). reflexivity.
 Qed.
-
-Arguments interior_ok {V PS}.
 
 (* ---------- Part 4: the caches (solver_grouping) ---------------------------- *)
 Section Grouping.
@@ -808,8 +894,8 @@ Section RaysReverse.
 
   Lemma solve_pure_tab_b h v P : interior_ok size (Leg h v P) ->
     solve_pure (Leg h v P)
-    = Some (mkRays (tab (size (startp h)) (size P) (optT T V PS ltb add size wf h v P))
-                   (map (tab (size (startp h)) (size P)) (optI T V PS ltb add size wf h v P))).
+    = Some (mkRays (tab (size (startp h)) (size P) (optT T V PS add size wf (cell1 T ltb) h v P))
+                   (map (tab (size (startp h)) (size P)) (optI T V PS add size wf (cell1 T ltb) h v P))).
   Proof.
     destruct Hord as (H1 & H2 & H3 & H4).
     exact (solve_pure_tab T D V PS leb ltb add size dtab divv wf H1 H2 H3 H4 Hleg h v P).
@@ -830,7 +916,7 @@ Section RaysReverse.
     destruct p as [P0|h v P]; [discriminate|]. intros Hok E. rewrite (solve_pure_tab_b h v P Hok) in E.
     injection E as <-. cbn [startp endp]. rewrite rays_reverse_tab, rays_reverse_tab. f_equal. f_equal.
     rewrite (map_rev (fun (fl : nat -> nat -> nat) j i => fl i j)), rev_involutive, map_map.
-    rewrite <- (map_id (optI T V PS ltb add size wf h v P)) at 2. apply map_ext. reflexivity.
+    rewrite <- (map_id (optI T V PS add size wf (cell1 T ltb) h v P)) at 2. apply map_ext. reflexivity.
   Qed.
 
   Lemma ray_of_reverse (p : @fpath V PS) r i j :
@@ -905,3 +991,188 @@ Lemma fastest_unique_lemma {T V PS} (leb : T -> T -> bool) (add : T -> T -> T) (
   (forall ridx c, cost add size wf p ridx = Some c -> last ridx 0 = i -> hd 0 ridx = j -> leb t2 c = true) ->
   leb t1 t2 = true /\ leb t2 t1 = true.
 Proof. intros C1 L1 H1 C2 L2 H2 O1 O2. split; [eapply O1 | eapply O2]; eauto. Qed.
+
+(* ---------- any argmin choice (bundled, used by Props/C01.v) ---------------------- *)
+Definition argmin_choice {T} (leb : T -> T -> bool) (sel : nat -> (nat -> T) -> T * nat) : Prop :=
+  forall m h, 1 <= m ->
+    snd (sel m h) < m
+    /\ fst (sel m h) = h (snd (sel m h))
+    /\ (forall k, k < m -> leb (fst (sel m h)) (h k) = true).
+
+Lemma any_choice_optimal_lemma T V PS (leb : T -> T -> bool) (add : T -> T -> T) (size : PS -> nat)
+      (wf : PS -> V -> PS -> nat -> nat -> T) (sel : nat -> (nat -> T) -> T * nat) :
+  (forall a, leb a a = true) -> (forall a b c, leb a b = true -> leb b c = true -> leb a c = true) ->
+  monotone_add leb add -> argmin_choice leb sel ->
+  forall (h : @fpath V PS) v P ridx c, interior_ok size (Leg h v P) ->
+    cost add size wf (Leg h v P) ridx = Some c ->
+    exists t, get2 (r_times (solve_sel T V PS add size wf sel h v P)) (last ridx 0) (hd 0 ridx) = Some t
+              /\ leb t c = true.
+Proof. intros H1 H2 H3 H4 h v P ridx c Hok Hc. eapply sel_optimal; eauto. Qed.
+
+Lemma any_choice_realised_lemma T V PS (leb : T -> T -> bool) (add : T -> T -> T) (size : PS -> nat)
+      (wf : PS -> V -> PS -> nat -> nat -> T) (sel : nat -> (nat -> T) -> T * nat) :
+  argmin_choice leb sel ->
+  forall (h : @fpath V PS) v P i j, interior_ok size (Leg h v P) ->
+    i < size (startp h) -> j < size P ->
+    exists t, get2 (r_times (solve_sel T V PS add size wf sel h v P)) i j = Some t
+              /\ cost add size wf (Leg h v P) (rev (ray_of (solve_sel T V PS add size wf sel h v P) i j)) = Some t
+              /\ hd 0 (ray_of (solve_sel T V PS add size wf sel h v P) i j) = i
+              /\ last (ray_of (solve_sel T V PS add size wf sel h v P) i j) 0 = j
+              /\ length (ray_of (solve_sel T V PS add size wf sel h v P) i j) = S (S (nlegs h)).
+Proof. intros H4 h v P i j Hok Hi Hj. eapply sel_realised; eauto. Qed.
+
+(* the code's kernel (first strict minimiser) is an argmin choice, and the model is the solver with that choice *)
+Lemma model_choice_lemma T (leb ltb : T -> T -> bool) :
+  total_preorder leb ltb -> argmin_choice leb (cell1 T ltb).
+Proof.
+  intros (H1 & H2 & H3 & H4) m h Hm. exact (cell1_sel T leb ltb H1 H2 H3 H4 m h Hm).
+Qed.
+
+Lemma model_is_choice_lemma T D V PS (leb ltb : T -> T -> bool) (add : T -> T -> T) (size : PS -> nat)
+      (dtab : PS -> PS -> list (list D)) (divv : D -> V -> T) (wf : PS -> V -> PS -> nat -> nat -> T) :
+  total_preorder leb ltb -> leg_model size dtab divv wf ->
+  forall (h : @fpath V PS) v P, interior_ok size (Leg h v P) ->
+    solve_pure ltb add size dtab divv (Leg h v P) = Some (solve_sel T V PS add size wf (cell1 T ltb) h v P).
+Proof.
+  intros (H1 & H2 & H3 & H4) Hleg h v P Hok.
+  exact (solve_pure_sel T D V PS leb ltb add size dtab divv wf H1 H2 H3 H4 Hleg h v P Hok).
+Qed.
+
+(* ---------- Part 7: the brute-force specification function is what it says ------------ *)
+Section Brute.
+  Variables T V PS : Type.
+  Variable leb ltb : T -> T -> bool.
+  Variable add : T -> T -> T.
+  Variable size : PS -> nat.
+  Variable wf : PS -> V -> PS -> nat -> nat -> T.
+  Hypothesis Hord : total_preorder leb ltb.
+
+  Notation fpath := (@fpath V PS).
+  Notation cost := (cost add size wf).
+
+  Lemma cost_hd_lt' (p : fpath) ridx c : cost p ridx = Some c -> hd 0 ridx < size (endp p).
+  Proof.
+    destruct p as [P0|h v P]; [discriminate|]. destruct ridx as [|j [|k more]]; try discriminate.
+    simpl. destruct (j <? size P) eqn:E; [|discriminate]. intros _. now apply Nat.ltb_lt.
+  Qed.
+
+  (* every valid tuple is enumerated *)
+  Lemma tuples_complete (p : fpath) : forall ridx c,
+    cost p ridx = Some c -> In ridx (tuples size p (hd 0 ridx)).
+  Proof.
+    induction p as [P0|h IH v P]; intros ridx c Hc; [discriminate|].
+    destruct ridx as [|j [|k more]]; try discriminate.
+    cbn [hd tuples]. apply in_map. apply in_flat_map. exists k.
+    destruct h as [P0|h' v' Pm].
+    - simpl in Hc. destruct (j <? size P); [|discriminate]. destruct more; [|discriminate].
+      destruct (k <? size P0) eqn:E; [|discriminate]. apply Nat.ltb_lt in E.
+      split; [apply in_seq; simpl; lia | simpl; auto].
+    - change (cost (Leg (Leg h' v' Pm) v P) (j :: k :: more))
+        with (if j <? size P
+              then match cost (Leg h' v' Pm) (k :: more) with
+                   | Some c => Some (add c (wf Pm v P k j)) | None => None end
+              else None) in Hc.
+      destruct (j <? size P); [|discriminate].
+      destruct (cost (Leg h' v' Pm) (k :: more)) as [c'|] eqn:Ec; [|discriminate].
+      split.
+      + apply in_seq. pose proof (cost_hd_lt' _ _ _ Ec) as H. simpl in *. lia.
+      + exact (IH (k :: more) c' Ec).
+  Qed.
+
+  Lemma min_opt_le a b r : min_opt ltb a b = Some r ->
+    (forall x, a = Some x -> leb r x = true) /\ (forall y, b = Some y -> leb r y = true)
+    /\ (a = Some r \/ b = Some r).
+  Proof.
+    destruct Hord as (H1 & H2 & H3 & H4).
+    destruct a as [x|], b as [y|]; simpl; try discriminate.
+    - rewrite H4. destruct (leb x y) eqn:E; simpl; intros [= <-].
+      + repeat split; auto; intros ? [= <-]; auto.
+      + assert (leb y x = true) by (destruct (H3 y x); congruence).
+        repeat split; auto; intros ? [= <-]; auto.
+    - intros [= <-]. repeat split; auto; try discriminate. intros ? [= <-]; auto.
+    - intros [= <-]. repeat split; auto; try discriminate. intros ? [= <-]; auto.
+  Qed.
+
+  Section Fold.
+    Variable p : fpath.
+    Variable i : nat.
+    Let F (acc : option T) (ridx : list nat) : option T :=
+      if last ridx 0 =? i then min_opt ltb acc (cost p ridx) else acc.
+
+    Lemma fold_min (l : list (list nat)) : forall acc r,
+      fold_left F l acc = Some r ->
+      (forall x, acc = Some x -> leb r x = true)
+      /\ (forall ridx c, In ridx l -> last ridx 0 = i -> cost p ridx = Some c -> leb r c = true)
+      /\ (acc = Some r \/ exists ridx, In ridx l /\ last ridx 0 = i /\ cost p ridx = Some r).
+    Proof.
+      destruct Hord as (H1 & H2 & H3 & H4).
+      induction l as [|t l IH]; intros acc r Hr; simpl in Hr.
+      - subst acc. split; [intros x [= <-]; apply H1|]. split; [intros ? ? []|left; reflexivity].
+      - destruct (IH _ _ Hr) as (A & B & C). unfold F in A, C at 1.
+        destruct (last t 0 =? i) eqn:E.
+        + apply Nat.eqb_eq in E.
+          assert (Hstep : forall m, min_opt ltb acc (cost p t) = Some m ->
+                   (forall x, acc = Some x -> leb m x = true) /\ (forall y, cost p t = Some y -> leb m y = true)
+                   /\ (acc = Some m \/ cost p t = Some m)) by (intros m; apply min_opt_le).
+          repeat split.
+          * intros x Hx. destruct (min_opt ltb acc (cost p t)) as [m|] eqn:Em.
+            -- destruct (Hstep m eq_refl) as (S1 & _). eapply H2; [apply A; reflexivity | apply S1; exact Hx].
+            -- subst acc. destruct (cost p t); simpl in Em; [destruct (ltb _ _) in Em|]; discriminate.
+          * intros ridx c [<-|Hin] Hl Hc.
+            -- destruct (min_opt ltb acc (cost p t)) as [m|] eqn:Em.
+               ++ destruct (Hstep m eq_refl) as (_ & S2 & _). eapply H2; [apply A; reflexivity | apply S2; exact Hc].
+               ++ rewrite Hc in Em. destruct acc; simpl in Em; [destruct (ltb _ _) in Em|]; discriminate.
+            -- eapply B; eauto.
+          * destruct C as [C|(ridx & Hin & Hl & Hc)].
+            -- destruct (Hstep r C) as (_ & _ & [S3|S3]); [left; exact S3 | right; exists t; simpl; auto].
+            -- right. exists ridx. simpl. auto.
+        + repeat split; auto.
+          * intros ridx c [<-|Hin] Hl Hc; [apply Nat.eqb_neq in E; contradiction | eapply B; eauto].
+          * destruct C as [C|(ridx & Hin & Hl & Hc)]; [left; exact C | right; exists ridx; simpl; auto].
+    Qed.
+  End Fold.
+
+  (* brute p i j is the minimum of cost over all valid tuples from i to j: attained and <= all *)
+  Theorem brute_spec_lemma (p : fpath) i j b :
+    brute ltb add size wf p i j = Some b ->
+    (exists ridx, cost p ridx = Some b /\ last ridx 0 = i /\ hd 0 ridx = j)
+    /\ (forall ridx c, cost p ridx = Some c -> last ridx 0 = i -> hd 0 ridx = j -> leb b c = true).
+  Proof.
+    unfold brute. intros Hb. destruct (fold_min p i _ _ _ Hb) as (_ & B & C). split.
+    - destruct C as [C|(ridx & Hin & Hl & Hc)]; [discriminate|].
+      exists ridx. repeat split; auto.
+      assert (exists c, cost p ridx = Some c) as [c Hc'] by eauto.
+      clear - Hin. revert Hin. destruct p as [P0|h v P]; simpl.
+      + intros [<-|[]]. reflexivity.
+      + intros Hin. apply in_map_iff in Hin as (x & <- & _). reflexivity.
+    - intros ridx c Hc Hl Hh. eapply B; eauto. rewrite <- Hh. eapply tuples_complete; eauto.
+  Qed.
+End Brute.
+
+(* the solver's times are the brute-force minimum (order-equivalent; equal under antisymmetry) *)
+Lemma solve_is_brute_lemma T D V PS (leb ltb : T -> T -> bool) (add : T -> T -> T) (size : PS -> nat)
+      (dtab : PS -> PS -> list (list D)) (divv : D -> V -> T) (wf : PS -> V -> PS -> nat -> nat -> T) :
+  total_preorder leb ltb -> monotone_add leb add -> leg_model size dtab divv wf ->
+  forall (p : @fpath V PS) r i j t b,
+    interior_ok size p -> solve_pure ltb add size dtab divv p = Some r ->
+    get2 (r_times r) i j = Some t -> brute ltb add size wf p i j = Some b ->
+    leb t b = true /\ leb b t = true.
+Proof.
+  intros Hord Hmono Hleg p r i j t b Hok E Ht Hb.
+  destruct (brute_spec_lemma T V PS leb ltb add size wf Hord p i j b Hb) as ((ridx & Hc & Hl & Hh) & Hmin).
+  split.
+  - destruct (solve_optimal_b T D V PS leb ltb add size dtab divv wf Hord Hmono Hleg p r ridx b Hok E Hc)
+      as (t' & Ht' & Hle).
+    rewrite Hl, Hh, Ht in Ht'. injection Ht' as <-. exact Hle.
+  - destruct (solve_shape_b T D V PS leb ltb add size dtab divv wf Hord Hleg p r Hok E) as (Hn & Hrow & _).
+    assert (Hi : i < size (startp p)).
+    { unfold get2 in Ht. destruct (nth_error (r_times r) i) eqn:En; [|discriminate].
+      rewrite <- Hn. apply nth_error_Some. congruence. }
+    assert (Hj : j < size (endp p)).
+    { unfold get2 in Ht. destruct (nth_error (r_times r) i) as [row|] eqn:En; [|discriminate].
+      rewrite <- (Hrow row (nth_error_In _ _ En)). apply nth_error_Some. congruence. }
+    destruct (solve_realised_b T D V PS leb ltb add size dtab divv wf Hord Hleg p r i j Hok E Hi Hj)
+      as (t' & Ht' & Hc' & Hhd & Hlast & _).
+    rewrite Ht in Ht'. injection Ht' as <-.
+    apply (Hmin _ _ Hc'); [rewrite last_rev; exact Hhd | rewrite hd_rev; exact Hlast].
+Qed.
